@@ -65,6 +65,8 @@ pub struct PlanSpec {
     pub faults: Vec<FaultSpec>,
     /// the tool's stderr is /dev/full (every write to it fails) instead of a pipe
     pub stderr_full: bool,
+    /// value of RUST_LOG in the tool's environment (None: unset); the output must not depend on it
+    pub rust_log: Option<&'static str>,
 }
 
 #[derive(Clone, Debug, Default)]
@@ -146,6 +148,7 @@ pub fn run_zeep(top: &Path, cwd: &Path, args: &[String], plan: &PlanSpec, tag: &
         .env("LD_PRELOAD", shim_path())
         .env("VERIFSIM_PLAN", &plan_path)
         .env("RUST_BACKTRACE", "0")
+        .envs(plan.rust_log.map(|v| ("RUST_LOG", v)))
         .stdin(Stdio::null())
         .stdout(Stdio::null());
     match (plan.stderr_full, std::fs::OpenOptions::new().write(true).open("/dev/full")) {
